@@ -62,7 +62,16 @@ def spec (head : List String) (ups : List UpIn) : List String × Bool :=
     let keys := sortInts (all.map (·.1)).eraseDups
     (keys.map fun k =>
       joinWith "," (toString k :: ups.map fun u => showList ((u.rows.filter (·.1 == k)).map (·.2))), true)
-  | _ => (r0.map showRow, true)   -- writer, scan, readerfunc, frame, readfull, scanner, closing
+  | ["scanner"] | ["scannerv"] =>
+    -- the scanner model (BS.Reader.scanAll, buffer of 128 rows) over the scripted upstream; = r0 by `scanner_over_script`
+    let u0 := ups.headD ⟨[], []⟩
+    if u0.script.any (fun t => t == "err" || t == "tmp") then (r0.map showRow, true)
+    else
+      let u : BS.Reader.Up (Int × Int) := ⟨u0.rows, (u0.script.map fun t =>
+        if t.endsWith "e" then ((t.dropEnd 1).toString.toNat!, true) else (t.toNat!, false)), false⟩
+      ((BS.Reader.scanAll (BS.Reader.upRd (Int × Int)) 128 (fun s => s.rest.length + s.script.length + 4) (u0.rows.length + 1)
+        ⟨u, [], false⟩).map showRow, true)
+  | _ => (r0.map showRow, true)   -- writer, scan, readerfunc, frame, readfull, readall, closing
 
 /-! ### step-level tie: the reader state machines of `BS.Reader`, run call by call -/
 
